@@ -264,7 +264,10 @@ def sec_predicates(ctx, rng, case):
     if rng.random() < 0.25:
         s2, w2 = s1, list(w1)
         p2 = tuple(p1)
-        if s1.eigen and rng.random() < 0.7:
+        if len(w1) >= 2 and rng.random() < 0.5:
+            # the same gate on exchanged qubits: equal only if the gate really is symmetric under that exchange
+            w2 = [w1[i] for i in rng.permutation(len(w1))]
+        elif s1.eigen and rng.random() < 0.7:
             r = rng.random()
             if r < 0.4:
                 p2 = (p1[0] + 2 * int(rng.integers(-2, 3)), p1[1])
@@ -288,8 +291,8 @@ def sec_predicates(ctx, rng, case):
     if cirq.definitely_commutes(a, b):
         ctx.check(comm_exact, "commutes=>matrices-commute", "C08:definitely-commutes-unsound", "", **wit)
     ctx.event("commutes-conservative" if (comm_exact and c is not True) else "commutes-decided")
-    # equality / hash
-    if w1 == w2:
+    # equality / hash (the matrices are embedded by wire, so any two operations on the same wire set are comparable)
+    if sorted(w1) == sorted(w2):
         same = L.allclose(A, B, 1e-8)
         if a == b:
             ctx.check(same and hash(a) == hash(b), "eq=>same-matrix-and-hash", "C08:eq-unsound",
@@ -305,7 +308,7 @@ def sec_predicates(ctx, rng, case):
             if cirq.equal_up_to_global_phase(a, b, atol=atol):
                 ctx.check(L.phase_diff(A, B) <= 100 * atol + 1e-9, "equal_up_to_global_phase=>phase-equal", "C08:eq-up-to-phase-unsound",
                           "equal_up_to_global_phase(atol=%g) but matrices differ up to phase by %.3g" % (atol, L.phase_diff(A, B)), atol=atol, **wit)
-            if cirq.equal_up_to_global_phase(a.gate, b.gate, atol=atol):
+            if w1 == w2 and cirq.equal_up_to_global_phase(a.gate, b.gate, atol=atol):
                 ctx.check(L.phase_diff(A, B) <= 100 * atol + 1e-9, "equal_up_to_global_phase=>phase-equal", "C08:eq-up-to-phase-unsound-gate", "", atol=atol, **wit)
     ctx.distinct((s1.name, _pk(p1), tuple(w1), s2.name, _pk(p2), tuple(w2)), nontrivial=not (L.allclose(A, np.eye(8), 1e-6) or L.allclose(B, np.eye(8), 1e-6)))
     ctx.sample({"a": (s1.name, _pk(p1), w1), "b": (s2.name, _pk(p2), w2), "commutes": str(c)})
@@ -414,11 +417,63 @@ def sec_linalg_predicates(ctx, rng, case):
     ctx.distinct((name, d, eps, round(float(abs(U[0, 0])), 6)))
 
 
+def sec_interchange(ctx, rng, case):
+    """the same multi-qubit gate on exchanged qubits: every equality-type predicate that says 'same' must be backed by the
+    matrices (qubit interchangeability is decided per gate from its parameters - exactly at special parameter values)"""
+    import cirq
+
+    specs = [s for s in _S["core"] if len(s.shape) >= 2 and all(d == 2 for d in s.shape) and len(s.shape) <= 3 and "matrix" not in s.tags]
+    spec = specs[case % len(specs)]
+    p = spec.sample(rng)
+    # push parameters onto the lattice points where symmetry conditions switch on
+    mode = int(rng.integers(4))
+    if mode:
+        unit = (math.pi / 2) if mode in (1, 2) else 0.5
+        p = tuple((round(x / unit) * unit if isinstance(x, float) and rng.random() < 0.6 else x) for x in p)
+    n = len(spec.shape)
+    qs = cirq.LineQubit.range(n)
+    perm = [int(i) for i in rng.permutation(n)]
+    if perm == list(range(n)):
+        perm = perm[1:] + perm[:1]
+    try:
+        gate = spec.make(p)
+    except ValueError:
+        ctx.reject("constructor")
+        return
+    a = gate.on(*qs)
+    b = gate.on(*[qs[i] for i in perm])
+    U = np.asarray(spec.ref(p))
+    A = L.embed(U, list(range(n)), (2,) * n)
+    B = L.embed(U, perm, (2,) * n)
+    wit = dict(spec=spec.name, params=p, perm=perm)
+    same = L.allclose(A, B, 1e-8)
+    if a == b:
+        ctx.check(same, "eq=>same-matrix-and-hash", "C08:eq-unsound:exchanged-qubits",
+                  "gate.on(q...) == gate.on(permuted q...) but the matrices differ by %.3g" % L.maxdiff(A, B), **wit)
+        ctx.check(hash(a) == hash(b), "eq=>same-matrix-and-hash", "C08:eq-hash:exchanged-qubits", "equal operations with different hashes", **wit)
+    else:
+        ctx.event("exchange-not-equal")
+    for atol in (1e-8, 1e-3):
+        if cirq.approx_eq(a, b, atol=atol):
+            ctx.check(L.maxdiff(A, B) <= 100 * atol + 1e-9, "approx_eq=>close-matrices", "C08:approx-eq-unsound:exchanged-qubits",
+                      "approx_eq(atol=%g) but matrices differ by %.3g" % (atol, L.maxdiff(A, B)), atol=atol, **wit)
+        if cirq.equal_up_to_global_phase(a, b, atol=atol):
+            ctx.check(L.phase_diff(A, B) <= 100 * atol + 1e-9, "equal_up_to_global_phase=>phase-equal", "C08:eq-up-to-phase-unsound:exchanged-qubits",
+                      "equal_up_to_global_phase(atol=%g) but matrices differ up to phase by %.3g" % (atol, L.phase_diff(A, B)), atol=atol, **wit)
+    # a circuit-level consequence: two circuits that compare equal have the same matrix
+    ca, cb = cirq.Circuit(a), cirq.Circuit(b)
+    if ca == cb:
+        ctx.check(same, "eq=>same-matrix-and-hash", "C08:eq-unsound:exchanged-qubits", "circuits equal, matrices differ", **wit)
+    ctx.distinct((spec.name, _pk(p), tuple(perm)), nontrivial=not same)
+    ctx.sample({"spec": spec.name, "params": _pk(p), "perm": perm, "eq": bool(a == b), "matrices_same": bool(same)})
+
+
 SECTIONS = [
     ("pow", sec_pow, 4000, 90000, 2.0),
     ("control", sec_control, 1500, 40000, 2.0),
     ("phase_by", sec_phase_by, 1200, 30000, 1.0),
     ("predicates", sec_predicates, 3000, 80000, 2.0),
     ("unary", sec_unary, 2500, 60000, 2.0),
+    ("interchange", sec_interchange, 2500, 60000, 1.0),
     ("linalg_predicates", sec_linalg_predicates, 600, 10000, 0.3),
 ]
